@@ -226,10 +226,16 @@ class StaticUseDep(packages.PackageRestriction):
 # Which makes no sense; trace and fix.
 class _UseDepDefaultContainment(values.ContainmentMatch, caching=False):
     __slots__ = ("if_missing",)
+    # the default changes what is matched, and the value matched against has
+    # another shape than ContainmentMatch's: never equal to one of those
+    __attr_comparison__ = ("vals", "all", "negate", "if_missing")
 
     def __init__(self, if_missing: bool, vals, negate=False):
         self.if_missing = bool(if_missing)
         super().__init__(vals, negate=negate, match_all=True)
+        self._hash = hash(
+            (self.__class__, self.if_missing, self.all, self.negate, self.vals)
+        )
 
     def match(self, val):
         reduced_vals = self.vals
